@@ -173,6 +173,16 @@ CHECKS["C19"] = dict(cat="model_checking", engine="WebIde", ref="§5 C19",
          "sequential scripts and free-running multi-threaded runs are recorded as Begin/End histories and TLC searches an ordering that explains every answer "
          "and the final file content (linearizability against the model).",
     note="concurrent runs use OS schedules (no pause hook); symlinks into hidden directories and hard links are not generated; session expiry is driven by advancing CLOCK_REALTIME of the harness child (clock_gettime interposition, self-tested)")
+CHECKS["C16"] = dict(cat="exploration", engine="Rename", ref="§5 C16",
+    tech="TLA+ Rename spec (scope forest, lexical + member lookup, phases of a rename request) model-checked with TLC; TLC names typed project skeletons and chooses rename requests (-simulate) next to seeded random projects; every request executed on the real trust_ide::rename::rename with re-analysis, execution and rename-back; traces validated by TLC",
+    text="TLC checks on every project with 3 scopes (every tree shape), 3 names, <= 3 declarations and <= 2 lexical/member references that the three-part conflict check "
+         "is exactly binding preservation, that an applied request edits exactly the occurrences of the symbol, preserves every binding, is applied only for a valid name, and that rename-back "
+         "restores the project (a declaring-scope-only check must be refuted). Multi-file ST projects (globals with VAR_EXTERNAL and CONFIGURATION, functions, function blocks "
+         "with methods, programs, structure types with fields, a namespace; colliding / shadowing / case-variant names) are rendered from the model's scenarios; for every (occurrence, new "
+         "name in {used elsewhere, fresh, case variant, keyword, invalid}) the real rename is run: edits in bounds, disjoint, one identifier each; diagnostics of the edited project equal modulo "
+         "the name; outputs of TestHarness::from_sources on a 3-cycle input trace equal; rename-back restores the bytes; rejected requests are keyed by the model's scenario class.",
+    note="a refusal is always accepted; an applied rename is rejected only on observable damage; outputs are compared only where the run-time executes the ORIGINAL project cleanly and like the "
+         "reference evaluation of the specification's scoping; USING, nested namespaces, inheritance, properties, enum values, dotted new names are not generated; four root-cause findings are listed as open")
 NOT_YET = "check not built yet in this round (see DESIGN.md build order); no claim made"
 
 
@@ -206,6 +216,7 @@ def main():
             "add_only": True,
         },
         "engines": [
+            {"name": "Rename", "path": "spec/Rename.tla", "serves_properties": ["C16"], "kind_free_text": "TLA+ module + MC instances + trace refinement; harness sub-commands rename-gen / rename-run"},
             {"name": "StbcContainer", "path": "spec/StbcContainer.tla", "serves_properties": ["C11"], "kind_free_text": "TLA+ module + MC + trace refinement; harness sub-commands stbc-gen / stbc-run"},
             {"name": "DocSync", "path": "spec/DocSync.tla", "serves_properties": ["C14"], "kind_free_text": "TLA+ module + MC instances + trace refinement; Python harness lib/docsync_harness.py driving the trust-lsp binary"},
             {"name": "WebIde", "path": "spec/WebIde.tla", "serves_properties": ["C19"], "kind_free_text": "TLA+ module + MC instances + two trace refinements; harness sub-commands webide-gen / webide-run"},
